@@ -11,9 +11,11 @@ Search: the executable statement of the property on the implementation (harness/
 import math
 import os
 import re
+import sys
 
 from common import (qlit, qlist, zlit, zlist, dyadic, coqc_many, parse_evals, REPO)
 import c18_search as S
+import c18_audit as A
 
 THEOREMS = ["C18_segments_tile", "C18_segments_cover_exactly_once",
             "C18_profile_constructor_reports_arguments", "C18_profile_history_independent",
@@ -212,25 +214,31 @@ def err_code(e):
         return 1
     if isinstance(e, AttributeError):
         return 2
+    if isinstance(e, ZeroDivisionError):
+        return 3
     raise e
 
 
-def make_profile(L, kind, args, pol):
+CTOR_KW = {"KUniform": [("energy_density", "Fed"), ("laser_length", "Flen"), ("laser_radius", "Frad")],
+           "KBiv": [("pulse_energy", "Fpe"), ("pulse_length", "Fpl"), ("laser_radius", "Frad"), ("laser_length", "Flen"),
+                    ("stddev_x", "Fsx"), ("stddev_y", "Fsy")],
+           "KTri": [("pulse_energy", "Fpe"), ("pulse_length", "Fpl"), ("mean_z", "Fmz"), ("laser_length", "Flen"),
+                    ("laser_radius", "Frad"), ("stddev_x", "Fsx"), ("stddev_y", "Fsy")],
+           "KBeam": [("pulse_energy", "Fpe"), ("pulse_length", "Fpl"), ("laser_length", "Flen"), ("laser_radius", "Frad"),
+                     ("waist_z", "Fwz"), ("stddev_waist", "Fsw"), ("laser_wavelength", "Fwl")]}      # documented positional order
+
+
+def make_profile(L, kind, args, pol, form="kw", omit=(), wrap_form=None):
+    """Class(...) called with keywords, positionally (documented order) or with some arguments left to their defaults"""
     from raysect.optical import Vector3D
-    p = Vector3D(*pol)
-    if kind == "KUniform":
-        return L.UniformEnergyDensity(energy_density=args["Fed"], laser_length=args["Flen"], laser_radius=args["Frad"],
-                                      polarization=p)
-    if kind == "KBiv":
-        return L.ConstantBivariateGaussian(pulse_energy=args["Fpe"], pulse_length=args["Fpl"], laser_radius=args["Frad"],
-                                           laser_length=args["Flen"], stddev_x=args["Fsx"], stddev_y=args["Fsy"], polarization=p)
-    if kind == "KTri":
-        return L.TrivariateGaussian(pulse_energy=args["Fpe"], pulse_length=args["Fpl"], mean_z=args["Fmz"],
-                                    laser_length=args["Flen"], laser_radius=args["Frad"], stddev_x=args["Fsx"],
-                                    stddev_y=args["Fsy"], polarization=p)
-    return L.GaussianBeamAxisymmetric(pulse_energy=args["Fpe"], pulse_length=args["Fpl"], laser_length=args["Flen"],
-                                      laser_radius=args["Frad"], waist_z=args["Fwz"], stddev_waist=args["Fsw"],
-                                      laser_wavelength=args["Fwl"], polarization=p)
+    cls = getattr(L, CLASSNAME[kind])
+    vals = [(kw, A.wrap(args[f], wrap_form)) for kw, f in CTOR_KW[kind]]
+    if form == "positional":
+        return cls(*[v for _, v in vals], Vector3D(*pol))
+    kwargs = {kw: v for (kw, v), (_, f) in zip(vals, CTOR_KW[kind]) if f not in omit}
+    if "pol" not in omit:
+        kwargs["polarization"] = Vector3D(*pol)
+    return cls(**kwargs)
 
 
 def exp_arg_float(kind, rep, c, x, y, z):
@@ -284,30 +292,8 @@ def probe_points(rng, kind, rep, c):
     return pts
 
 
-def run_profile_case(L, case, rng, c, ctx):
-    from raysect.optical import World, Vector3D
-    from cherab.core.laser import Laser
-    kind = case["kind"]
+def observe_profile(obj, laser, kind, rng, c):
     obs = {"ctor_ok": True}
-    ctx.crumb({"case": case})
-    try:
-        obj = make_profile(L, kind, case["args"], case["pol"])
-    except ValueError:
-        obs["ctor_ok"] = False
-        return obs, None, None
-    laser = Laser(parent=World())
-    laser.laser_profile = obj
-    res = []
-    for op in case["ops"]:
-        try:
-            if op[0] == "pol":
-                obj.set_polarization(Vector3D(*op[1]))
-            else:
-                setattr(obj, ATTR[op[1]], op[2])
-            res.append(0)
-        except (ValueError, AttributeError) as e:
-            res.append(err_code(e))
-    obs["res"] = res
     rep = {f: float(getattr(obj, ATTR[f])) for f in KIND_FIELDS[kind]}
     obs["rep"] = rep
     probes = []
@@ -328,7 +314,61 @@ def run_profile_case(L, case, rng, c, ctx):
     obs["parents_ok"] = all(cyl.parent is laser for cyl in g) and len(laser.children) == len(g)
     pt = obj.get_pointing(0.1, 0.2, 0.3)
     obs["pointing"] = (pt.x, pt.y, pt.z)
-    return obs, obj, laser
+    return obs
+
+
+def run_profile_case(L, case, rng, c, ctx, stats):
+    """Runs one history on ONE live object.  Returns (records, obj, laser, step_fails): records = [(case variant with
+    the calls resolved to plain values, observations)], the last one for the complete history, earlier ones for the
+    observations made on the same object in the middle of the history."""
+    from raysect.optical import World, Vector3D
+    from cherab.core.laser import Laser
+    kind = case["kind"]
+    ctx.crumb({"case": case})
+    try:
+        obj = make_profile(L, kind, case["args"], case["pol"], case.get("ctor_form", "kw"), case.get("omit", ()), case.get("ctor_wrap"))
+    except (ValueError, ZeroDivisionError):
+        return [(dict(case, ops=[]), {"ctor_ok": False})], None, None, []
+    laser = Laser(parent=World())
+    laser.laser_profile = obj
+    res, resolved, records, step_fails = [], [], [], []
+    pol_cur = case["pol"]
+    mids = set(case.get("mid", ()))
+    for i, op in enumerate(case["ops"]):
+        if i in mids:
+            obs = observe_profile(obj, laser, kind, rng, c)
+            obs["res"] = list(res)
+            records.append((dict(case, ops=list(resolved), observed_mid_history=i), obs))
+            stats["mid_history_observations"] += 1
+        try:
+            if op[0] == "pol":
+                rop = ("pol", tuple(op[1]))
+                obj.set_polarization(Vector3D(*op[1]))
+                pol_cur = tuple(op[1])
+            elif op[0] == "attach":
+                rop = ("attach",)
+                laser.laser_profile = obj
+            else:
+                f = op[1]
+                if op[0] == "same":
+                    v = float(getattr(obj, ATTR[f])) if f in KIND_FIELDS[kind] else 1.5
+                    form = None
+                else:
+                    v, form = float(op[2]), (op[3] if len(op) > 3 else None)
+                rop = ("set", f, v)
+                setattr(obj, ATTR[f], A.wrap(v, form))
+            res.append(0)
+        except (ValueError, AttributeError, ZeroDivisionError) as e:
+            res.append(err_code(e))
+        resolved.append(rop)
+        # every step: the live object against a freshly built one (cheap, on the implementation only)
+        fl = S.step_check_profile(L, kind, obj, laser, pol_cur, dict(case, ops=list(resolved)), stats)
+        if fl and not step_fails:
+            step_fails.append(fl)
+    obs = observe_profile(obj, laser, kind, rng, c)
+    obs["res"] = res
+    records.append((dict(case, ops=resolved), obs))
+    return records, obj, laser, step_fails
 
 
 def spectrum_float_edges(lo, hi, bins):
@@ -340,28 +380,11 @@ def spectrum_float_edges(lo, hi, bins):
     return delta, e
 
 
-def run_spectrum_case(L, case, rng, ctx):
-    kind = case["kind"]
-    a = case["args"]
+SNAMES = {"min": "min_wavelength", "max": "max_wavelength", "bins": "bins", "mean": "mean", "std": "stddev"}
+
+
+def observe_spectrum(obj, kind, rng):
     obs = {"ctor_ok": True}
-    ctx.crumb({"case": case})
-    try:
-        if kind == "SConst":
-            obj = L.ConstantSpectrum(a["min"], a["max"], a["bins"])
-        else:
-            obj = L.GaussianSpectrum(a["min"], a["max"], a["bins"], a["mean"], a["std"])
-    except ValueError:
-        obs["ctor_ok"] = False
-        return obs, None
-    res = []
-    names = {"min": "min_wavelength", "max": "max_wavelength", "bins": "bins", "mean": "mean", "std": "stddev"}
-    for op in case["ops"]:
-        try:
-            setattr(obj, names[op[0]], op[1])
-            res.append(0)
-        except (ValueError, AttributeError) as e:
-            res.append(err_code(e))
-    obs["res"] = res
     lo, hi = float(obj.min_wavelength), float(obj.max_wavelength)
     rep = [lo, hi, float(obj.get_min_wavelenth()), float(obj.get_max_wavelenth())]
     if kind == "SGauss":
@@ -381,18 +404,63 @@ def run_spectrum_case(L, case, rng, ctx):
             arg = (e - mean) * ncdf
             tbl.append((arg, math.erf(arg)))
     obs["tbl"] = tbl
+    obs["slack"] = 2.0 ** -44 * hi / (rep[5] * math.sqrt(2.0)) if kind == "SGauss" else 0.0
     obs["edges"] = edges
-    xs = [lo, hi, 0.5 * (lo + hi), lo + rng.uniform(-0.2, 1.2) * (hi - lo), math.nextafter(lo, 0.0), math.nextafter(hi, 1e9)]
+    xs = [lo, hi, 0.5 * (lo + hi), lo + rng.uniform(-0.2, 1.2) * (hi - lo), math.nextafter(lo, 0.0), math.nextafter(hi, math.inf)]
     evals = []
     for x in xs:
         if kind == "SGauss":
-            arg = -0.5 * ((x - rep[4]) * (1 / rep[5])) ** 2
+            t = (x - rep[4]) * (1 / rep[5])
+            arg = -0.5 * (t * t)                 # t * t: inf instead of OverflowError, like the C code
             ev = math.exp(arg)
         else:
             arg, ev = 0.0, 0.0
         evals.append((x, arg, ev, float(obj(x))))
     obs["evals"] = evals
-    return obs, obj
+    return obs
+
+
+def run_spectrum_case(L, case, rng, ctx, stats):
+    kind = case["kind"]
+    a = case["args"]
+    ctx.crumb({"case": case})
+    w = case.get("ctor_wrap")
+    try:
+        if kind == "SConst":
+            obj = L.ConstantSpectrum(A.wrap(a["min"], w), A.wrap(a["max"], w), a["bins"])
+        else:
+            obj = L.GaussianSpectrum(A.wrap(a["min"], w), A.wrap(a["max"], w), a["bins"], A.wrap(a["mean"], w), A.wrap(a["std"], w))
+    except ValueError:
+        return [(dict(case, ops=[]), {"ctor_ok": False})], None, []
+    res, resolved, records, step_fails = [], [], [], []
+    mids = set(case.get("mid", ()))
+    for i, op in enumerate(case["ops"]):
+        if i in mids:
+            obs = observe_spectrum(obj, kind, rng)
+            obs["res"] = list(res)
+            records.append((dict(case, ops=list(resolved), observed_mid_history=i), obs))
+            stats["mid_history_observations"] += 1
+        name = op[1] if op[0] == "same" else op[0]
+        try:
+            if op[0] == "same":
+                v = getattr(obj, SNAMES[name]) if (kind == "SGauss" or name not in ("mean", "std")) else 1.5
+                form = None
+            else:
+                v, form = op[1], (op[2] if len(op) > 2 else None)
+            v = int(v) if name == "bins" else float(v)
+            rop = (name, v)
+            setattr(obj, SNAMES[name], A.wrap(v, form) if form else v)
+            res.append(0)
+        except (ValueError, AttributeError) as e:
+            res.append(err_code(e))
+        resolved.append(rop)
+        fl = S.step_check_spectrum(L, kind, obj, dict(case, ops=list(resolved)), stats)
+        if fl and not step_fails:
+            step_fails.append(fl)
+    obs = observe_spectrum(obj, kind, rng)
+    obs["res"] = res
+    records.append((dict(case, ops=resolved), obs))
+    return records, obj, step_fails
 
 
 # ---------------------------------------------------------------------------------------------
@@ -405,6 +473,8 @@ def vec_lit(v):
 def pop_lit(op):
     if op[0] == "pol":
         return "PSetPol %s" % vec_lit(op[1])
+    if op[0] == "attach":
+        return "PAttach"
     return "PSet %s %s" % (op[1], qlit(op[2]))
 
 
@@ -445,14 +515,14 @@ def spectrum_term(case, obs):
     args = "(mkSA %s %s %s %s %s)" % (qlit(a["min"]), qlit(a["max"]), zlit(a["bins"]), qlit(a["mean"]), qlit(a["std"]))
     ops = blist(sop_lit(o) for o in case["ops"])
     if not obs["ctor_ok"]:
-        return "check_spectrum cPi cSqrt2 cSqrt2pi %s %s %s false [] [] [] [] [] [] [] []" % (case["kind"], args, ops)
-    return "check_spectrum cPi cSqrt2 cSqrt2pi %s %s %s true %s %s %s %s %s %s %s %s" % (
-        case["kind"], args, ops, zl(obs["res"]), qlist(obs["rep"]), zl(obs["zrep"]), qlist(obs["deltas"]),
+        return "check_spectrum cPi cSqrt2 cSqrt2pi %s %s %s false [] [] [] [] 0 [] [] [] []" % (case["kind"], args, ops)
+    return "check_spectrum cPi cSqrt2 cSqrt2pi %s %s %s true %s %s %s %s %s %s %s %s %s" % (
+        case["kind"], args, ops, zl(obs["res"]), qlist(obs["rep"]), zl(obs["zrep"]), qlist(obs["deltas"]), qlit(obs["slack"]),
         blist("(%s, %s)" % (qlit(k), qlit(v)) for k, v in obs["tbl"]), qlist(obs["wl"]), qlist(obs["psd"]),
         blist("(%s, %s, %s, %s)" % tuple(qlit(v) for v in e) for e in obs["evals"]))
 
 
-CODE_TEXT = {"profile": {1: "constructor accepted/rejected differently", 2: "result (ok / ValueError / AttributeError) of a setter call",
+CODE_TEXT = {"profile": {1: "constructor accepted/rejected differently", 2: "result (ok / ValueError / AttributeError / ZeroDivisionError) of a call",
                          3: "reported parameters", 4: "harness constant sqrt((2 pi)^3)", 5: "energy density at a probe point",
                          6: "polarisation", 7: "cylinder radius", 8: "segments held by the Laser node"},
              "spectrum": {1: "constructor accepted/rejected differently", 2: "result of a setter call", 3: "reported wavelengths / mean / stddev / accessors",
@@ -510,8 +580,6 @@ def run(ctx):
     rng = ctx.rng
     quick = ctx.quick
     c = speed_of_light()
-    n_prof = 150 if quick else 2400
-    n_spec = 150 if quick else 2600
 
     cases = load_corpus()
     n_corpus = len(cases)
@@ -529,28 +597,52 @@ def run(ctx):
             cs["ops"] = [(op[0], v)]
             cases.append(cs)
     n_forced = len(cases)
+    n_prof = 110 if quick else 2000
+    n_spec = 110 if quick else 2200
     for i in range(n_prof):
         cases.append(gen_profile_case(rng, KINDS[i % 4], exact=(i % 3 == 0)))
     for i in range(n_spec):
         cases.append(gen_spectrum_case(rng, "SGauss" if i % 5 < 3 else "SConst", exact=(i % 3 == 0), quick=quick))
+    # random histories get an observation in the middle as well (same live object observed twice)
+    for cs in cases[n_forced:]:
+        if len(cs["ops"]) >= 2 and rng.random() < 0.3:
+            cs["mid"] = [rng.randint(1, len(cs["ops"]) - 1)]
+    # classes added by the blind-spot audit (harness/c18_audit.py), regular part of both tiers
+    me = sys.modules[__name__]
+    for kind in KINDS:
+        cases += A.profile_cases(me, rng, kind, 2 if quick else 30, quick)
+    for kind in ("SConst", "SGauss"):
+        cases += A.spectrum_cases(me, rng, kind, 3 if quick else 45, quick)
 
     # ---- run the implementation --------------------------------------------------------------------
-    terms, objs, dropped = [], [], 0
+    stats = {"fresh_vs_mutated": 0, "quadrature": 0, "tiling": 0, "spectrum_bins": 0, "spectrum_sum_to_one": 0,
+             "skipped_invalid_state": 0, "const_edge_cases": 0, "mid_history_observations": 0, "per_step_fresh_checks": 0,
+             "nonfinite_observations_skipped": 0, "type_rejections": 0, "laser_routes": 0, "direct_bin_calls": 0}
+    terms, recs, objs, dropped, fails = [], [], [], 0, []
     for case in cases:
         if case["type"] == "profile":
-            obs, obj, laser = run_profile_case(L, case, rng, c, ctx)
-            terms.append(profile_term(case, obs))
-            objs.append((case, obs, obj, laser))
+            records, obj, laser, sf = run_profile_case(L, case, rng, c, ctx, stats)
+            mk = profile_term
         else:
-            obs, obj = run_spectrum_case(L, case, rng, ctx)
+            records, obj, sf = run_spectrum_case(L, case, rng, ctx, stats)
+            laser = None
+            mk = spectrum_term
+        fails += sf
+        oi = len(objs)
+        objs.append((records[-1][0], records[-1][1], obj, laser))
+        for cv, obs in records:
             tb = obs.get("tbl") or []
-            if any(abs(a[0] - b[0]) < 2.0 ** -10 for a, b in zip(tb, tb[1:])):
+            if any(abs(a[0] - b[0]) < 2.0 ** -10 + 4 * obs.get("slack", 0.0) for a, b in zip(tb, tb[1:])):
                 dropped += 1        # neighbouring erf arguments too close for the oracle-table lookup: not compared in Coq
                 continue
-            terms.append(spectrum_term(case, obs))
-            objs.append((case, obs, obj, None))
+            try:
+                terms.append(mk(cv, obs))
+            except (ValueError, OverflowError):
+                stats["nonfinite_observations_skipped"] += 1     # inf / nan cannot be written as an exact rational
+                continue
+            recs.append((cv, obs, oi))
     cases = [o[0] for o in objs]
-    ctx.log("implementation run on %d cases" % len(cases))
+    ctx.log("implementation run on %d objects, %d observations" % (len(objs), len(terms)))
 
     # ---- correspondence in Coq ---------------------------------------------------------------------
     s2pi3 = math.sqrt((2 * math.pi) ** 3)
@@ -559,7 +651,7 @@ def run(ctx):
               "Definition cC : Q := %s.\nDefinition cPi : Q := %s.\nDefinition cS2pi3 : Q := %s.\n"
               "Definition cSqrt2 : Q := %s.\nDefinition cSqrt2pi : Q := %s.\n"
               % (qlit(c), qlit(math.pi), qlit(s2pi3), qlit(math.sqrt(2.0)), qlit(math.sqrt(2 * math.pi))))
-    per = 22 if quick else 125
+    per = max(22, -(-len(terms) // 16)) if quick else 125       # quick: one wave of at most 16 coqc processes
     files = []
     for si in range(0, len(terms), per):
         sh = terms[si:si + per]
@@ -577,15 +669,12 @@ def run(ctx):
         if not good:
             ctx.broken.append("coqc failed on %s: %s" % (f, out[-600:]))
         diffs += [(ids[i], code) for i, code in failing]
-    ctx.log("correspondence: %d cases in %d files, %d disagree" % (len(cases), len(files), len(diffs)))
+    ctx.log("correspondence: %d observations of %d objects in %d files, %d disagree" % (len(terms), len(objs), len(files), len(diffs)))
 
     # ---- failing-input search: the property itself on the real implementation ------------------------
-    diff_idx = {i for i, _ in diffs}
-    order = sorted(diff_idx) + [i for i in range(len(cases)) if i not in diff_idx]
+    diff_idx = {recs[i][2] for i, _ in diffs}
+    order = sorted(diff_idx) + [i for i in range(len(objs)) if i not in diff_idx]
     heavy_budget = 30 if quick else 300
-    stats = {"fresh_vs_mutated": 0, "quadrature": 0, "tiling": 0, "spectrum_bins": 0, "spectrum_sum_to_one": 0,
-             "skipped_invalid_state": 0, "const_edge_cases": 0}
-    fails = []
     for i in order:
         case, obs, obj, laser = objs[i]
         if obj is None:
@@ -602,6 +691,9 @@ def run(ctx):
         fails += fl
     # extra tiling sweep over many radius / length combinations (cheap)
     fails += S.search_tiling(L, rng, 300 if quick else 5000, stats)
+    # other entry points and routes: second Laser node, profile replaced / re-attached, configure_geometry(), direct calls of
+    # _get_bin_power_spectral_density and generate_segmented_cylinder, values of a rejected type
+    fails += S.search_routes(L, rng, 12 if quick else 200, stats)
     other = fails
     ctx.obligation("executable property on the implementation (%d objects)" % len(objs), "search", not other, str(other[:3]))
     seen = set()
@@ -614,7 +706,7 @@ def run(ctx):
         ctx.violation(fobj["key"], fobj["claim"], fobj, found=True)
     if diffs and not other:
         for i, code in diffs[:3]:
-            case, obs = objs[i][0], objs[i][1]
+            case, obs = recs[i][0], recs[i][1]
             ctx.violation("c18-diff:%s:%s:%d" % (case["type"], case["kind"], code),
                           "model and implementation disagree on %s (%s %s); the executable property found no failing input"
                           % (CODE_TEXT[case["type"]].get(code, "?"), case["type"], case["kind"]),
@@ -623,24 +715,27 @@ def run(ctx):
     # ---- coverage ------------------------------------------------------------------------------------
     def nontrivial(case, obs):
         return obs["ctor_ok"] and any(r == 0 for r in obs.get("res", []))
-    dist = {"by_class": {}, "ops_per_case": {}, "op_results": {"ok": 0, "ValueError": 0, "AttributeError": 0},
+    dist = {"by_class": {}, "ops_per_case": {}, "op_results": {"ok": 0, "ValueError": 0, "AttributeError": 0, "ZeroDivisionError": 0}, "audit_classes": {},
             "constructor_rejected": 0, "geometry_class": {}, "segments": {"0-1": 0, "2-9": 0, "10+": 0},
             "spectrum_bins": {"1": 0, "2-9": 0, "10+": 0}, "setters_hit": {}}
     keyset = set()
     for case, obs, obj, _ in objs:
         nm = CLASSNAME.get(case["kind"], {"SConst": "ConstantSpectrum", "SGauss": "GaussianSpectrum"}.get(case["kind"]))
         dist["by_class"][nm] = dist["by_class"].get(nm, 0) + 1
+        ac = case.get("audit", "random-history" if "corpus" not in case else "corpus")
+        dist["audit_classes"][ac] = dist["audit_classes"].get(ac, 0) + 1
         dist["ops_per_case"][str(len(case["ops"]))] = dist["ops_per_case"].get(str(len(case["ops"])), 0) + 1
         if not obs["ctor_ok"]:
             dist["constructor_rejected"] += 1
             continue
         for o, r in zip(case["ops"], obs["res"]):
-            dist["op_results"][["ok", "ValueError", "AttributeError"][r]] += 1
+            dist["op_results"][["ok", "ValueError", "AttributeError", "ZeroDivisionError"][r]] += 1
             if r == 0:
-                k = "%s.%s" % (nm, ATTR.get(o[1], o[1]) if o[0] == "set" else ("set_polarization" if o[0] == "pol" else o[0]))
+                k = "%s.%s" % (nm, ATTR.get(o[1], o[1]) if o[0] == "set" else {"pol": "set_polarization", "attach": "laser.laser_profile="}.get(o[0], o[0]))
                 dist["setters_hit"][k] = dist["setters_hit"].get(k, 0) + 1
         if case["type"] == "profile":
-            dist["geometry_class"][case["geom_class"]] = dist["geometry_class"].get(case["geom_class"], 0) + 1
+            gc = case.get("geom_class", "free")
+            dist["geometry_class"][gc] = dist["geometry_class"].get(gc, 0) + 1
             n = len(obs["segs"])
             dist["segments"]["0-1" if n < 2 else "2-9" if n < 10 else "10+"] += 1
         else:
@@ -653,10 +748,16 @@ def run(ctx):
     dist["corpus_cases"] = n_corpus
     dist["dropped_spectrum_cases_with_indistinguishable_erf_arguments"] = dropped
     ctx.coverage.update({
-        "evaluations": len(cases),
+        "evaluations": len(terms),
         "distinct_nontrivial": len(keyset),
-        "rule": "one case = one object (constructor arguments) + one setter history (0-8 calls, about 12% rejected values, 3% foreign "
-                "attributes, 4-5% rejected constructors) + observations after the history; every setter of every class additionally once alone; "
+        "rule": "one evaluation = one observation of a live object compared in Coq: one object (constructor arguments) + one setter history "
+                "(0-11 calls, about 12% rejected values, 3% foreign attributes, 4-5% rejected constructors), observed after the history and, for "
+                "a third of the histories, also in the middle; after EVERY call the live object is compared with a freshly built one. "
+                "every setter of every class additionally once alone; audit classes (harness/c18_audit.py): guard crossing on the same object "
+                "(positive -> 0/-0.0/negative -> positive), same value again / re-attach to the Laser node, changes that keep the segment or "
+                "shrink the bin count, exact boundaries (L = 2rk and one ulp either side for k in 1,2,9,10,11,99,100,101; max = min, one ulp "
+                "apart; tiny/huge magnitudes; zero polarisation), argument forms (int, bool, numpy scalars, float32, 0-d arrays; constructor "
+                "positional / defaults), scaling by 2^k; "
                 "radius/length drawn from the classes short (L<2r), one, two, exact multiple, many, free; one third of the cases dyadic. "
                 "non-trivial = constructor accepted and at least one setter call accepted; distinct = distinct (class, arguments, history)",
         "distribution": dist,
